@@ -4,10 +4,11 @@ import IpcModel.GenInproc
 
 The wire format carries an attachment *index* only.  The OS transports cannot tell a sending from a receiving end (both are
 sockets): the conversion always succeeds and hands out an endpoint on the attached descriptor.  The in-process transport does
-know the kind (`OsIpcChannel::Sender / Receiver`) and, asked for the other one, **panics** (`to_sender` / `to_receiver`,
-`panic!("Opaque channel is not a sender!")`; flag `Gen.inprocKindMismatchPanics`, regenerated).  That contradicts C16 ("never
-panics") on that transport: finding D18, open (DESIGN §12.5) — the statement is proved for the transports without kind
-information and for a kind-aware transport that answers with an error; the witness for the current in-process code is below.
+know the kind (`OsIpcChannel::Sender / Receiver`); its `to_sender` / `to_receiver` **panic** when asked for the other one
+(`Gen.inprocKindMismatchPanics`).  Until the repair of D18 decoding went through those, so a receiver decoded as a sender panicked the
+receiving thread on that transport; now `ipc.rs` converts through `platform::attachment::{to_sender, to_receiver}`, which on the
+in-process back-end answer `None` for the wrong kind (⇒ a decode error, the attachment released) — flag `Gen.decodeKindMismatchIsError`,
+regenerated from `ipc.rs`, `platform/mod.rs` and the in-process back-end.
 -/
 namespace C16Kind
 
@@ -18,13 +19,22 @@ inductive Out | endpoint (k : Kind) | err | panic
 deriving Repr, DecidableEq
 
 /-- converting an attachment of kind `att` to the kind `want` the expected type asks for; `knowsKind`: the transport records
-kinds; `panics`: what it does on a mismatch -/
+kinds; `panics`: what decoding does there on a mismatch -/
 def convert (knowsKind panics : Bool) (want att : Kind) : Out :=
   if !knowsKind || want == att then .endpoint want
   else if panics then .panic else .err
 
-/-- **C16_kind_partial** — no panic on a kind mismatch: for every transport without kind information (Unix sockets, memfd build), and for a
-kind-aware transport whose mismatch answer is an error.  (Full statement: `∀ knowsKind panics …`; false for `true, true`.) -/
+/-- what decoding does on a kind-aware transport, as the source says now -/
+def codePanics : Bool := !Gen.decodeKindMismatchIsError
+
+/-- **C16_kind_total** — on every transport (with or without kind information), for every wanted and attached kind, decoding an endpoint never
+panics: the wrong kind is an endpoint on the attached descriptor where the transport cannot tell, a decode error where it can. -/
+theorem C16_kind_total (knowsKind : Bool) (want att : Kind) : convert knowsKind codePanics want att ≠ .panic := by
+  have h : codePanics = false := by decide
+  rw [h]; cases knowsKind <;> cases want <;> cases att <;> decide
+
+/-- the general fact behind it (kept from the time the finding was open): no panic whenever the transport has no kind information or
+answers a mismatch with an error -/
 theorem C16_kind_partial (knowsKind panics : Bool) (h : knowsKind = false ∨ panics = false) (want att : Kind) :
     convert knowsKind panics want att ≠ .panic := by
   cases knowsKind <;> cases panics <;> cases want <;> cases att <;> first | decide | (exact absurd h (by decide))
@@ -33,13 +43,9 @@ theorem C16_kind_partial (knowsKind panics : Bool) (h : knowsKind = false ∨ pa
 theorem C16_kind_match (knowsKind panics : Bool) (k : Kind) : convert knowsKind panics k k = .endpoint k := by
   cases knowsKind <;> cases panics <;> cases k <;> decide
 
-/-- **witness for the open finding D18**: as long as the in-process source has the `panic!` arms (flag regenerated), a receiver decoded
-as a sender panics there — replayed on the real in-process build by the `kindmix` scenario -/
-theorem C16_kind_inproc_witness (h : Gen.inprocKindMismatchPanics = true) :
-    convert true Gen.inprocKindMismatchPanics .sender .receiver = .panic := by
-  rw [h]; decide
-
+/-- the behaviour before the repair (D18): the in-process transport panicked -/
+example : convert true true .sender .receiver = .panic := by decide
 example : convert false true .sender .receiver = .endpoint .sender := by decide   -- OS: an endpoint on the attached descriptor
-example : convert true false .sender .receiver = .err := by decide                -- what a kind-aware transport should answer
+example : convert true codePanics .sender .receiver = .err := by decide           -- in-process now: a decode error
 
 end C16Kind
